@@ -45,7 +45,10 @@ def active_deviations(res):
     for k in res.findings.known:
         if k["property"] == "C10" and k["class"] == "deviation" and k["match"].get("dev") in ALL_DEV:
             devs.append(k["match"]["dev"])
-    return sorted(set(devs))
+    # developer facility (never used by registered commands): check a proposed fix without
+    # editing the findings file, e.g. VERIF_C10_DROP_DEV=referral-aa with VERIF_REPO=<patched tree>
+    drop = set(filter(None, os.environ.get("VERIF_C10_DROP_DEV", "").split(",")))
+    return sorted(set(devs) - drop)
 
 
 def tla_set(strs):
